@@ -41,7 +41,7 @@ func (y *yieldRec) OnKey(s string) error {
 func concStreamDoc(g int) string {
 	c := fmt.Sprintf("%02x", 'a'+g%26)
 	s := func(n int) string { return strings.Repeat(c, n) }
-	return "{-1:0,K:" + s(70) + ",S:" + s(600) + ",K:" + s(65) + "01,[-1:0,S:" + s(100) + ",S:" + s(5000) + ",S:" + s(3) + ",],K:" + s(513) + ",S:" + s(4097) + ",}"
+	return "{-1:0,K:" + s(70) + ",S:" + s(600) + ",K:" + s(65) + "01,[-1:0,S:" + s(100) + ",S:" + s(3) + ",],K:" + s(513) + ",S:" + s(4097) + ",}"
 }
 
 func concStreamPipeline(g int, yield func()) string {
@@ -52,12 +52,12 @@ func concStreamPipeline(g int, yield func()) string {
 		if fn == "json" {
 			wire = append(wire, ' ')
 		}
-		// push parser, 7-byte Writes
+		// push parser, 61-byte Writes (every long string still arrives in many pieces)
 		rec := &yieldRec{RefRecorder{Recorder{FailAt: -1}}, yield}
 		p := f.NewParser(rec)
 		verdict := "ok"
-		for i := 0; i < len(wire); i += 7 {
-			j := i + 7
+		for i := 0; i < len(wire); i += 61 {
+			j := i + 61
 			if j > len(wire) {
 				j = len(wire)
 			}
@@ -68,10 +68,10 @@ func concStreamPipeline(g int, yield func()) string {
 			yield()
 		}
 		out = append(out, rec.String()+"="+verdict)
-		// pull decoder, 16-byte buffer, 5-byte reads
+		// pull decoder, 16-byte buffer, 37-byte reads (each taken in three Reads)
 		var chunks [][]byte
-		for i := 0; i < len(wire); i += 5 {
-			j := i + 5
+		for i := 0; i < len(wire); i += 37 {
+			j := i + 37
 			if j > len(wire) {
 				j = len(wire)
 			}
